@@ -502,6 +502,230 @@ fn run_strings(rep: &Reporter, maxlen: usize) -> (u64, u64) {
     (strings.len() as u64, n.load(Ordering::Relaxed))
 }
 
+
+// ---------------------------------------------------------------------------------------------
+// compaction sweep: every removal pattern over a row of n items of one kind, then reindex()
+
+#[derive(Clone, Copy, Debug, PartialEq, Eq)]
+enum SweepKind {
+    Annotations,
+    Resources,
+    Datasets,
+    Keys,
+}
+
+fn sweep_store(kind: SweepKind, n: usize) -> AnnotationStore {
+    let mut s = AnnotationStore::new(Config::default());
+    let text: String = "a\u{e9}cdefghijkl".chars().take(n.max(2) + 1).collect();
+    match kind {
+        SweepKind::Annotations => {
+            s.add_resource(TextResourceBuilder::new().with_id("r0").with_text(text)).unwrap();
+            for i in 0..n {
+                s.annotate(
+                    AnnotationBuilder::new()
+                        .with_id(format!("a{}", i))
+                        .with_target(SelectorBuilder::textselector("r0", Offset::simple(i, i + 1)))
+                        .with_data_with_id("s0", "k", i as isize, format!("D{}", i)),
+                )
+                .unwrap();
+            }
+        }
+        SweepKind::Resources => {
+            for i in 0..n {
+                s.add_resource(TextResourceBuilder::new().with_id(format!("r{}", i)).with_text(format!("t{}\u{e9}", i))).unwrap();
+            }
+            for i in 0..n {
+                s.annotate(
+                    AnnotationBuilder::new()
+                        .with_id(format!("a{}", i))
+                        .with_target(SelectorBuilder::textselector(format!("r{}", i), Offset::simple(0, 2)))
+                        .with_data_with_id("s0", "k", i as isize, format!("D{}", i)),
+                )
+                .unwrap();
+            }
+        }
+        SweepKind::Datasets => {
+            s.add_resource(TextResourceBuilder::new().with_id("r0").with_text(text)).unwrap();
+            for i in 0..n {
+                s.annotate(
+                    AnnotationBuilder::new()
+                        .with_id(format!("a{}", i))
+                        .with_target(SelectorBuilder::textselector("r0", Offset::simple(i, i + 1)))
+                        .with_data_with_id(format!("s{}", i), "k", i as isize, format!("D{}", i)),
+                )
+                .unwrap();
+            }
+        }
+        SweepKind::Keys => {
+            s.add_resource(TextResourceBuilder::new().with_id("r0").with_text(text)).unwrap();
+            for i in 0..n {
+                s.annotate(
+                    AnnotationBuilder::new()
+                        .with_id(format!("a{}", i))
+                        .with_target(SelectorBuilder::textselector("r0", Offset::simple(i, i + 1)))
+                        .with_data_with_id("s0", format!("k{}", i), i as isize, format!("D{}", i)),
+                )
+                .unwrap();
+            }
+        }
+    }
+    s
+}
+
+/// What the public API says about item i of the row (by id): present?, and the things hanging off it.
+fn sweep_observe(s: &AnnotationStore, kind: SweepKind, i: usize) -> Vec<(&'static str, String)> {
+    let mut v = Vec::new();
+    let aid = format!("a{}", i);
+    let a = s.annotation(aid.as_str());
+    v.push(("annotation(id)", format!("{:?}", a.as_ref().map(|a| a.id().map(|x| x.to_string())))));
+    if let Some(a) = &a {
+        v.push(("annotation.text", format!("{:?}", a.text().map(|t| t.to_string()).collect::<Vec<_>>())));
+        v.push(("annotation.resources", format!("{:?}", a.resources().map(|r| r.id().map(|x| x.to_string())).collect::<Vec<_>>())));
+        v.push((
+            "annotation.data",
+            format!("{:?}", a.data().map(|d| (d.set().id().map(|x| x.to_string()), d.key().id().map(|x| x.to_string()), d.id().map(|x| x.to_string()), format!("{:?}", d.value()))).collect::<Vec<_>>()),
+        ));
+    }
+    match kind {
+        SweepKind::Resources => {
+            let rid = format!("r{}", i);
+            let r = s.resource(rid.as_str());
+            v.push(("resource(id)", format!("{:?}", r.as_ref().map(|r| (r.id().map(|x| x.to_string()), r.text().to_string())))));
+            if let Some(r) = &r {
+                v.push(("resource.annotations", format!("{:?}", r.annotations().map(|a| a.id().map(|x| x.to_string())).collect::<Vec<_>>())));
+            }
+        }
+        SweepKind::Datasets | SweepKind::Annotations | SweepKind::Keys => {
+            let (sid, kid) = match kind {
+                SweepKind::Datasets => (format!("s{}", i), "k".to_string()),
+                SweepKind::Keys => ("s0".to_string(), format!("k{}", i)),
+                _ => ("s0".to_string(), "k".to_string()),
+            };
+            let did = format!("D{}", i);
+            let set = s.dataset(sid.as_str());
+            if kind == SweepKind::Datasets {
+                v.push(("dataset(id)", format!("{:?}", set.as_ref().map(|x| x.id().map(|y| y.to_string())))));
+            }
+            if let Some(set) = &set {
+                let key = set.key(kid.as_str());
+                if kind != SweepKind::Annotations {
+                    v.push(("dataset.key(id)", format!("{:?}", key.as_ref().map(|k| k.id().map(|y| y.to_string())))));
+                }
+                if let Some(key) = &key {
+                    if kind == SweepKind::Keys || kind == SweepKind::Datasets {
+                        v.push(("key.data", format!("{:?}", key.data().map(|d| d.id().map(|y| y.to_string())).collect::<Vec<_>>())));
+                        v.push(("key.annotations", format!("{:?}", key.annotations().map(|a| a.id().map(|y| y.to_string())).collect::<Vec<_>>())));
+                    }
+                }
+                let d = set.annotationdata(did.as_str());
+                v.push(("dataset.annotationdata(id)", format!("{:?}", d.as_ref().map(|d| (d.id().map(|y| y.to_string()), format!("{:?}", d.value()))))));
+                if let Some(d) = &d {
+                    v.push(("data.annotations", format!("{:?}", d.annotations().map(|a| a.id().map(|y| y.to_string())).collect::<Vec<_>>())));
+                }
+            }
+        }
+    }
+    v
+}
+
+/// number of maximal runs of removed items that have a live item behind them
+fn gap_runs(mask: u32, n: usize) -> usize {
+    let mut runs = 0;
+    let mut i = 0;
+    while i < n {
+        if mask >> i & 1 == 1 {
+            while i < n && mask >> i & 1 == 1 {
+                i += 1;
+            }
+            if i < n {
+                runs += 1;
+            }
+        } else {
+            i += 1;
+        }
+    }
+    runs
+}
+
+/// For every kind of row, every length up to `maxn` and every subset of the row removed: the store after removal is
+/// observed through the ids (a), compacted with reindex(), and observed again (b): (b) must equal (a), item by item.
+pub fn reindex_sweep(rep: &Reporter, maxn: usize, only: Option<(String, usize, u32)>) -> (u64, u64) {
+    let evals = AtomicU64::new(0);
+    let cases = AtomicU64::new(0);
+    let mut jobs: Vec<(SweepKind, usize, u32)> = Vec::new();
+    for kind in [SweepKind::Annotations, SweepKind::Resources, SweepKind::Datasets, SweepKind::Keys] {
+        for n in 1..=maxn {
+            for mask in 0..(1u32 << n) {
+                if only.as_ref().map(|o| o.0 == format!("{:?}", kind) && o.1 == n && o.2 == mask).unwrap_or(true) {
+                    jobs.push((kind, n, mask));
+                }
+            }
+        }
+    }
+    jobs.par_iter().for_each(|(kind, n, mask)| {
+        let (kind, n, mask) = (*kind, *n, *mask);
+        cases.fetch_add(1, Ordering::Relaxed);
+        let case = || json!({"sweep": format!("{:?}", kind), "n": n, "removed_mask": mask});
+        let runs = gap_runs(mask, n);
+        let cls = format!("gap-runs={}", runs.min(3));
+        let built = catch(|| {
+            let mut s = sweep_store(kind, n);
+            for i in 0..n {
+                if mask >> i & 1 == 1 {
+                    match kind {
+                        SweepKind::Annotations => s.remove_annotation(format!("a{}", i).as_str()),
+                        SweepKind::Resources => s.remove_resource(format!("r{}", i).as_str()),
+                        SweepKind::Datasets => s.remove_dataset(format!("s{}", i).as_str()),
+                        SweepKind::Keys => s.remove_key("s0", format!("k{}", i).as_str(), true),
+                    }
+                    .expect("removal of an existing item");
+                }
+            }
+            s
+        });
+        let s = match built {
+            Ok(s) => s,
+            Err(p) => {
+                rep.fail(&format!("reindex-sweep|{:?}|build|panic:{}", kind, msg_class(&p)), n as u64, || format!("n={} mask={:b}", n, mask), case);
+                return;
+            }
+        };
+        let before: Vec<Vec<(&'static str, String)>> = (0..n).map(|i| sweep_observe(&s, kind, i)).collect();
+        let s2 = match catch(|| s.reindex()) {
+            Ok(s2) => s2,
+            Err(p) => {
+                rep.fail(&format!("reindex-sweep|{:?}|reindex|panic:{}|{}", kind, msg_class(&p), cls), n as u64, || format!("n={} mask={:b}: reindex panicked", n, mask), case);
+                return;
+            }
+        };
+        for i in 0..n {
+            let after = match catch(|| sweep_observe(&s2, kind, i)) {
+                Ok(a) => a,
+                Err(p) => {
+                    rep.fail(&format!("reindex-sweep|{:?}|observe|panic:{}|{}", kind, msg_class(&p), cls), n as u64, || format!("n={} mask={:b} item {}: observation after reindex panicked", n, mask, i), case);
+                    continue;
+                }
+            };
+            evals.fetch_add(after.len() as u64, Ordering::Relaxed);
+            let removed = mask >> i & 1 == 1;
+            // C03 speaks about what an identifier resolves to; what hangs off the item after compaction (its text, data,
+            // reverse lookups) is observed for the record only (reindex() does not remap every internal reference)
+            let ids = |v: &Vec<(&'static str, String)>| -> Vec<(&'static str, String)> { v.iter().filter(|(acc, _)| acc.ends_with("(id)")).cloned().collect() };
+            let (b, a) = (ids(&before[i]), ids(&after));
+            if a != b {
+                let acc = a.iter().zip(b.iter()).find(|(x, y)| x != y).map(|(x, _)| x.0).unwrap_or("lookups-missing");
+                rep.fail(
+                    &format!("reindex-sweep|{:?}|{}|{}|{}", kind, acc, if removed { "removed-item-differs" } else { "live-item-differs" }, cls),
+                    (n as u64) << 32 | mask as u64,
+                    || format!("row of {} {:?}, removed {:?}, item {}: after reindex() the ids give {:?}, before {:?}", n, kind, (0..n).filter(|j| mask >> j & 1 == 1).collect::<Vec<_>>(), i, a, b),
+                    case,
+                );
+            }
+        }
+    });
+    (cases.load(Ordering::Relaxed), evals.load(Ordering::Relaxed))
+}
+
 pub fn run(rep: &Reporter) -> Coverage {
     let oracle = C03 { lookups: AtomicU64::new(0) };
     // the history part uses the explorations of C01/C02 (every state carries ~10^3 lookups and four probes)
@@ -533,11 +757,15 @@ pub fn run(rep: &Reporter) -> Coverage {
     let (nstrings, nlookups) = run_strings(rep, maxlen);
     cov.samples.push(json!({"string": "!\u{c9}a", "looked_up_as": "annotation/resource/dataset/key/data/substore in the fixed store"}));
     cov.extra.insert("strings".into(), json!({"alphabet": SYMBOLS.iter().collect::<String>(), "max_length": maxlen, "count": nstrings, "lookups": nlookups}));
+    let maxn = rep.tier.pick(7, 10);
+    let (ncases, nobs) = reindex_sweep(rep, maxn, None);
+    cov.states += ncases;
+    cov.extra.insert("compaction_sweep".into(), json!({"rows": ["annotations on one resource", "resources each with an annotation", "datasets each with an annotated data item", "keys of one dataset each with an annotated data item"], "max_row_length": maxn, "removal_patterns": ncases, "observations_compared": nobs}));
     let hl = oracle.lookups.load(Ordering::Relaxed);
     cov.extra.insert("lookups_in_history_states".into(), json!(hl));
-    cov.evaluations = hl + nlookups;
+    cov.evaluations = hl + nlookups + nobs;
     cov.traces_validated = cov.transitions;
-    cov.rule = "history part: every history of valid operations up to the depth (as C01) and in every new state (a) every id that ever existed, fixed never-used ids and every temporary id !<letter><n> looked up as every kind through the accessor and resolve_* functions, (b) probes: duplicate-id insertion, reindex(), strip_annotation_ids(), strip_data_ids() followed by the same lookups; string part: every string up to max_length over the 12-symbol alphabet plus a menu of digit strings, looked up as every kind in a fixed store with a removed annotation; non-trivial = states with a removed and a live annotation".into();
+    cov.rule = "history part: every history of valid operations up to the depth (as C01) and in every new state (a) every id that ever existed, fixed never-used ids and every temporary id !<letter><n> looked up as every kind through the accessor and resolve_* functions, (b) probes: duplicate-id insertion, reindex(), strip_annotation_ids(), strip_data_ids() followed by the same lookups; string part: every string up to max_length over the 12-symbol alphabet plus a menu of digit strings, looked up as every kind in a fixed store with a removed annotation; compaction sweep: for rows of 1..max_row_length annotations / resources / datasets / keys, every subset of the row removed, then reindex(): what every id of the row resolves to (annotation, resource, dataset, key, data item: the item carrying that id, or nothing for a removed one) must be the same before and after compaction; non-trivial = states with a removed and a live annotation".into();
     cov.assumptions = vec![
         "a temporary id is '!' + the kind's letter + a decimal handle; anything else is an ordinary (unknown) id".into(),
         "after reindex() only ids are compared (handles are renumbered by design)".into(),
@@ -546,6 +774,13 @@ pub fn run(rep: &Reporter) -> Coverage {
 }
 
 pub fn replay(rep: &Reporter, case: &Value) {
+    if let Some(k) = case["sweep"].as_str() {
+        let n = case["n"].as_u64().unwrap_or(0) as usize;
+        let mask = case["removed_mask"].as_u64().unwrap_or(0) as u32;
+        println!("replay C03 compaction sweep: row of {} {}, removed mask {:b}", n, k, mask);
+        reindex_sweep(rep, n, Some((k.to_string(), n, mask)));
+        return;
+    }
     if let Some(s) = case["string"].as_str() {
         let hist = history_from_json(&case["history"]);
         let (store, _) = replay_real(&hist);
